@@ -1,7 +1,7 @@
 """C19 routed dispatch and the authentication gate.
 
 Routing.tla defines the decision function; TLC enumerates (route table for the type, unknown handler, what other types registered,
-verifier, request route, authentication, position of the routing entry) - 5760 cases - checks the gate / exactness / independence
+verifier, request route, authentication, position of the routing entry) - 9600 cases - checks the gate / exactness / independence
 invariants and prints the decision table.  Every row is replayed on a real RequestRouter + RoutingRequestHandler:
   - one handler instance per table (= per connection); the table's 36 requests are issued in random order, twice, so any dependence
     on earlier requests (cached verification results, leaked state) shows;
@@ -97,11 +97,29 @@ def table_for(c):
     return tbl
 
 
-def metadata_for(c, nonce):
+REVOKED = set()      # credentials the verifier no longer accepts
+
+
+def _accepted(c):
+    return c['auth'] == 'good' or (c['auth'] == 'scoped' and c['route'] == 'r1')
+
+
+def metadata_for(c, nonce, revoke=True):
     from rsocket.extensions.helpers import composite, route, authenticate_simple, authenticate_bearer, metadata_item
     from rsocket.extensions.mimetypes import WellKnownMimeTypes
     items = []
     auth = None
+    if c['auth'] == 'scoped':
+        # credentials the (route-aware) verifier accepts on route r1 only
+        auth = authenticate_simple('user', 'scoped-pw') if nonce % 2 else authenticate_bearer('scoped-token')
+    elif c['auth'] == 'revoked':
+        # credentials that were valid and have been revoked (revoke=False: not yet - the caller revokes them after a first request)
+        tok = 'revocable-%d' % (nonce % 2)
+        auth = authenticate_simple('user', tok) if nonce % 2 else authenticate_bearer(tok)
+        if revoke:
+            REVOKED.add(tok.encode())
+        else:
+            REVOKED.discard(tok.encode())
     if c['auth'] == 'good':
         auth = authenticate_simple('user', 'good-%d' % (nonce % 3)) if nonce % 2 else authenticate_bearer('good-token')
     elif c['auth'] == 'bad':
@@ -119,9 +137,15 @@ def metadata_for(c, nonce):
 
 
 async def verifier(route, authentication):
-    tok = getattr(authentication, 'password', None) or getattr(authentication, 'token', None)
-    if not bytes(tok).startswith(b'good'):
-        raise Exception('bad credentials')
+    """a function of (route, credentials) at the time of the call"""
+    tok = bytes(getattr(authentication, 'password', None) or getattr(authentication, 'token', None))
+    if tok.startswith(b'good'):
+        return
+    if tok.startswith(b'scoped') and route == CONCRETE['r1']:
+        return
+    if tok.startswith(b'revocable') and tok not in REVOKED:
+        return
+    raise Exception('bad credentials')
 
 
 async def invoke(handler, t, payload):
@@ -156,7 +180,7 @@ def judge(v, c, d, log_slice, outcome, payload, sigvariant, ctx):
     want = [] if d == 'error' else [(c['type'], c['route'] if d == 'handler' else 'unknown')]
     rp = {'kind': 'c19', 'case': c, 'ctx': ctx}
     if ran != want:
-        clause = 'C19.gate' if (c['verifier'] and c['auth'] != 'good' and ran) else 'C19.dispatch_exact'
+        clause = 'C19.gate' if (c['verifier'] and not _accepted(c) and ran) else 'C19.dispatch_exact'
         v.add_failure(clause, sig, 'case %s: decision %s, but the functions that ran were %s (%s)' % (
             {k: c[k] for k in ('type', 'registered', 'unknown', 'others', 'verifier', 'route', 'auth', 'pos')}, d, ran, ctx), rp)
         return
@@ -201,6 +225,7 @@ def run(v):
         raise common.Machinery('expected %d decision rows, parsed %d' % (r.distinct, len(rows)))
     v.add('states', r.distinct)
     v.add('transitions', r.generated)
+    decisions = {json.dumps(c, sort_keys=True): d for c, d in rows}
     # group by table (= one handler instance = one connection)
     groups = {}
     for c, d in rows:
@@ -223,6 +248,16 @@ def run(v):
                 # adversarial order for history dependence: every rejected request immediately followed by the same request again
                 order = sorted(order, key=lambda x: (x[0]['route'], x[0]['pos'], x[0]['auth'] != 'bad'))
             for k, (c, d) in enumerate(order):
+                if c['auth'] == 'revoked':
+                    # the same request while the credentials are still valid: decided as for good credentials ...
+                    md0 = metadata_for(c, k + p, revoke=False)
+                    payload0 = Payload(b'valid-%d' % k, md0) if c['type'] != 'metadata_push' else Payload(None, md0)
+                    n0 = len(log)
+                    out = await invoke(handler, c['type'], payload0)
+                    cg = dict(c, auth='good')
+                    judge(v, cg, decisions[json.dumps(cg, sort_keys=True)], log[n0:], out, payload0, sigvariant, 'credentials valid, revoked afterwards')
+                    replayed += 1
+                    # ... then they are revoked, and presented again
                 md = metadata_for(c, k + p)
                 payload = Payload(b'data-%d' % k, md) if c['type'] != 'metadata_push' else Payload(None, md)
                 n0 = len(log)
@@ -288,12 +323,13 @@ def run(v):
     v.add('evaluations', replayed)
     v.add('distinct_nontrivial', len(rows))
     v.setc('exhaustive', True)
-    v.setc('rule', 'every row of the decision table printed by TLC (5760 = type x registered subset x unknown x others x verifier x route x '
+    v.setc('rule', 'every row of the decision table printed by TLC (9600 = type x registered subset x unknown x others x verifier x route x '
                    'authentication x position), replayed per table on one handler instance in random and adversarial orders')
     v.sample({'case': rows[len(rows) // 3][0], 'decision': rows[len(rows) // 3][1]})
     # through a real connection: "that request alone"
     _via_connection(v, rows, rnd, 40 if not thorough else 400)
-    v.assumptions += ['the authentication verifier used accepts credentials starting with "good" and raises for anything else',
+    v.assumptions += ['the authentication verifier used is a function of (route, credentials) at the time of the call: it accepts credentials starting '
+                      'with "good", "scoped" ones on route r1 only, "revocable" ones until they are revoked, and raises for anything else',
                       'a request without any routing entry may only fail (it is neither handed to a handler nor to the unknown-route handler)']
 
 
